@@ -69,6 +69,18 @@ CHECKS = {
    category="exploration", design_ref="3/C18", technique="property-based testing (hypothesis-generated pairs of specs) with a fresh-process differential: B alone vs. B after activity on A",
    text="For generated pairs (A, B) and amounts of activity on A (construct, fuzz long enough for the adaptive tuner to grow its limits, parse), B's ordered solutions and parse results in a process that first worked on A must equal those of a process that ran B alone.",
    note="Both arms under the same hash seed; the parser cap for {n,} (observable only beyond 20 iterations) is an open known finding and probed separately."),
+ "C16": dict(
+   category="exploration", design_ref="3/C16", technique="property-based testing (hypothesis): generated generator specs whose functions log every call; emitted and operator-produced trees checked against the log, the recorded sources and a re-parse",
+   text="Specs with constant, random, dependent (documented converter pattern) and nested generators, with constraints that make repair, mutation and crossover act on and around generated fields; every generated node of every emitted or operator-produced tree must hold a value the generator returned (log), equal the reference function of the recorded argument, and be the parse of that value; a negative class checks that out-of-rule generator values never end up substituted.",
+   note="Generator functions and their log live in the spec's own python block; reference versions of the dependent generators are written in the check."),
+ "C19": dict(
+   category="exploration", design_ref="3/C19", technique="exhaustive enumeration of all message histories up to depth D per hypothesis-generated protocol spec, against a Brzozowski-derivative model of the message-level language",
+   text="For generated protocol specs (alternatives, options, *, +, bounded repetitions, nested non-message nonterminals, same type from different senders) every history up to depth 5 (7 thorough) is built the way production builds it (predict -> mount a generated message on each offered path) and the offered (sender, recipient, type) set, the completeness flag and the mounted sequence are compared with derivatives of a reference regular expression.",
+   note="Non-message nonterminals are non-recursive; unbounded repetitions over nullable bodies are excluded (C06 known finding); one open known finding (skips-open-group) is classified by the reference."),
+ "C20": dict(
+   category="fault_enumeration", design_ref="3/C20", technique="property-based testing (hypothesis): end-to-end protocol runs against scripted peers (valid / wrong type / violating / truncated) with generated fragmentation and arrival schedules under a harness-owned virtual clock; history invariant on the interaction tree",
+   text="Whole Fandango.fuzz(mode=IO) runs on generated protocol specs; the harness plays all external parties from a generated script and delivery schedule and owns the clock of packetparser/algorithm. The resulting interaction must be a prefix of the protocol language (complete when fault-free), fuzzer messages must match the recorded send() calls one-to-one in order, remote messages must be a prefix of what each peer delivered, sent messages satisfy their constraints, and injected faults never end up accepted.",
+   note="Arrival orders are logical (virtual clock), no OS threads; loops are bounded to 2 iterations to keep runs short (unbounded forms are covered by C19)."),
 }
 NA = {}
 checks = []
